@@ -1,6 +1,7 @@
 package parser
 
 import (
+	"math"
 	"unicode"
 
 	comb "github.com/moorara/algo/parser/combinator"
@@ -70,7 +71,14 @@ func toNum(r comb.Result) (comb.Result, bool) {
 
 	var num int
 	for _, r := range l {
-		num = num*10 + r.Val.(int)
+		d := r.Val.(int)
+
+		// A number that does not fit in an int is not accepted (it used to wrap around silently).
+		if num > (math.MaxInt-d)/10 {
+			return comb.Result{}, false
+		}
+
+		num = num*10 + d
 	}
 
 	return comb.Result{
